@@ -412,6 +412,18 @@ func main() {
 	run.Set("evaluations", total.evals)
 	run.Set("distinct_nontrivial", len(total.passed))
 	run.Set("import_history_checks", int(atomic.LoadInt64(&historyChecks)))
+	wideN, wideFails := wideChecks()
+	run.Set("wide_literals_65_to_128_bits", wideN)
+	run.Add("evaluations", wideN)
+	seenWide := map[string]bool{}
+	for _, f := range wideFails {
+		sig := "C08|" + f.fam + "|wide|" + f.failure
+		if seenWide[sig] {
+			continue
+		}
+		seenWide[sig] = true
+		run.Report(sig, f.detail, map[string]any{"kind": "wide", "what": f.detail})
+	}
 	if importDisagree != "" {
 		run.Report("C08|import|ImportString-differs-from-its-only-matcher", importDisagree, map[string]any{"kind": "import-dispatch", "what": importDisagree})
 	}
